@@ -87,7 +87,10 @@ def limitedExpected (lt : Entry → Entry → Bool) (n : Int) (supplied A : List
   let k : Int := supplied.length
   let cnt : Int := min (max n k) A.length
   let others := A.filter (fun a => !has supplied a.hash)
-  hashes supplied ++ hashes (lastN (cnt - k) (goSort lt others))
+  -- an entry supplied twice counts twice in `k` (the caller supplied k starting entries) but is one entry
+  -- of the result: the remaining places go to the most recent others
+  let ds := dedupHashes (hashes supplied) []
+  ds ++ hashes (lastN (cnt - ds.length) (goSort lt others))
 
 def fetchLen (kind : String) (n : Int) (k : Nat) : Int :=
   if kind == "ent" then (if n > -1 then max n k else -1) else n
